@@ -22,7 +22,7 @@ LEVEL = "exploration"
 TECHNIQUE = "exhaustive enumeration of pilot sequences x owned noise draws (stateless DFS with deviation bound) on the real battery classes over a boundary-aligned lattice; plus every cell of bounded simulations"
 RULE = (
     "battery menu (ideal; two-stage x continuous/stepwise x sigma x transition SoC) x initial-SoC lattice (0, mid, transition +-1e-3, .999, 1) x V x period; "
-    "all pilot sequences of length<=L over {0,1,6,16,32,80} A; at each charge call every noise draw in {0,+-0.1,+-1,+-3} sigma with <=D non-zero draws; "
+    "all pilot sequences of length<=L over {0,1,6,16,32,80} A plus charge/reset-operation/charge sandwiches (reset(), reset(cap/2), refused reset(1.1 cap)); at each charge call every noise draw in {0,+-0.1,+-1,+-3} sigma with <=D non-zero draws; "
     "non-trivial = execution in which some call delivered a rate strictly between 0 and the pilot"
 )
 ASSUMPTIONS = [
@@ -33,6 +33,7 @@ ASSUMPTIONS = [
 CHUNK = 24
 PILOTS = (0, 1, 6, 16, 32, 80)
 DRAWS = (0.0, 0.1, -0.1, 1.0, -1.0, 3.0, -3.0)
+RESETS = ("reset", "reset-half", "reset-over")
 
 
 def bounds(tier, seed):
@@ -108,6 +109,26 @@ def run_sequence(cfg, soc, v, period, pilots, chooser, viol, alt=False):
         for step, pilot in enumerate(pilots):
             period = other if (alt and step % 2 == 1) else base_period
             before = b._current_charge
+            if isinstance(pilot, str):
+                # reset operations between charges: a plain reset, a reset to half capacity, and a reset the
+                # battery must refuse (above capacity) - a refused call leaves the battery as it was
+                tag = "%s:%s" % (cfg["kind"] if cfg["kind"] == "ideal" else cfg["calc"], "noise" if cfg.get("sigma", 0) > 0 else "nonoise")
+                try:
+                    if pilot == "reset":
+                        b.reset()
+                    elif pilot == "reset-half":
+                        b.reset(0.5 * cap)
+                    else:
+                        b.reset(1.1 * cap)
+                        viol.append(("reset-above-capacity-accepted:" + tag, "step %d: reset(1.1*capacity) was not refused" % step, "accepted", "ValueError"))
+                except ValueError:
+                    if pilot != "reset-over":
+                        viol.append(("reset-refused:" + tag, "step %d: %s raised ValueError" % (step, pilot), pilot, None))
+                    elif b._current_charge != before:
+                        viol.append(("refused-reset-changed-charge:" + tag, "step %d: refused reset(1.1*capacity) left stored charge %.9g (was %.9g, capacity %.9g)" % (step, b._current_charge, before, cap), b._current_charge, before))
+                if b._current_charge > cap * (1 + 1e-9):
+                    viol.append(("charge-above-capacity:" + tag, "step %d after %s: stored charge %.9g > capacity %.9g" % (step, pilot, b._current_charge, cap), b._current_charge, cap))
+                continue
             try:
                 rate = b.charge(pilot, v, period)
             except Exception as exc:  # no failure is documented for these inputs
@@ -135,8 +156,11 @@ def run_sequence(cfg, soc, v, period, pilots, chooser, viol, alt=False):
 def run_battery(item, acc):
     cfg, soc, v, period = item["cfg"], item["soc"], item["v"], item["period"]
     noisy = cfg.get("sigma", 0) > 0
-    for L in range(1, item["L"] + 1):
-        for pilots in itertools.product(PILOTS, repeat=L):
+    seqs = [(L, pilots) for L in range(1, item["L"] + 1) for pilots in itertools.product(PILOTS, repeat=L)]
+    # reset sandwiches: charge, one reset operation (plain / to half / refused), charge again on the same object
+    seqs += [(3, (p1, r, p2)) for p1 in (16, 80) for r in RESETS for p2 in PILOTS]
+    if True:
+        for L, pilots in seqs:
           for alt in ((False, True) if L >= 2 else (False,)):
             def body(ch):
                 viol = []
